@@ -719,7 +719,13 @@ def structural_checks(unit):
                 src = Source.get(sc["file"])
             except Exception as e:
                 res.append({"id": sc["id"], "ok": False, "detail": str(e), "why": sc.get("why", ""), "lost": True}); continue
-            n = len(find_all_seq(src.toks, pat(sc["pattern"])))
+            if sc.get("raw_regex"):
+                # a regular expression counted on the file's text as written (for declarations whose attributes R3 normalises away)
+                n = len(re.findall(sc["raw_regex"], src.text, re.M))
+                res.append({"id": sc["id"], "ok": n == sc["expect"], "detail": "%d match(es) of /%s/ in %s (expected %d)" % (n, sc["raw_regex"], sc["file"], sc["expect"]), "why": sc.get("why", ""), "lost": False})
+                continue
+            # raw=True: count on the file's token stream as written (derive lists and cfg attributes are otherwise normalised away by R3)
+            n = len(find_all_seq(tokenize(src.text) if sc.get("raw") else src.toks, pat(sc["pattern"])))
             res.append({"id": sc["id"], "ok": n == sc["expect"], "detail": "%d occurrence(s) of `%s` in %s (expected %d)" % (n, sc["pattern"], sc["file"], sc["expect"]), "why": sc.get("why", ""), "lost": False})
             continue
         if "count_in_fn" in sc:
